@@ -119,6 +119,10 @@ func (t *c10Tx) Prepare(ctx contract.Context) (state.WorldContext, error) {
 func (t *c10Tx) Execute(ctx contract.Context, wcs state.WorldSnapshot, estimate bool) (txresult.Receipt, error) {
 	c10Mu.Lock()
 	st := c10Runs[t.Run]
+	if st == nil {
+		c10Mu.Unlock()
+		panic("verif-c10: handler executed after its block execution was torn down")
+	}
 	n := st.attempts[t.Idx]
 	st.attempts[t.Idx]++
 	out := c10OK
@@ -267,6 +271,7 @@ func c10Cases(tier string) []c10Case {
 type c10Run struct {
 	obs *l2Obs
 	st  *c10State
+	id  int64
 }
 
 // c10Judge applies the property statement to one finished execution.
@@ -386,6 +391,7 @@ func c10Explore(env *l2Env, c c10Case, idx int, deadline time.Time, known map[st
 	}
 	res.Res = explore.Explore(opt, body, func(x *explore.Exec, out *explore.Outcome) {
 		run := x.Data.(*c10Run)
+		defer c10EndRun(run.id)
 		res.Outcomes[c10Outcome(run, out.Panic)]++
 		sig, detail := c10Judge(c, run, out.Panic, out.Deadlock, out.Horizon)
 		if sig == "" {
@@ -404,6 +410,7 @@ func c10Explore(env *l2Env, c c10Case, idx int, deadline time.Time, known map[st
 			res.Harness = "replay of a violating execution diverged: " + err.Error()
 			return
 		}
+		defer c10EndRun(x2.Data.(*c10Run).id)
 		if sig2, _ := c10Judge(c, x2.Data.(*c10Run), out2.Panic, out2.Deadlock, out2.Horizon); sig2 != sig {
 			res.Harness = fmt.Sprintf("violation %q did not reproduce on replay (got %q)", sig, sig2)
 			return
@@ -420,18 +427,20 @@ func c10Explore(env *l2Env, c c10Case, idx int, deadline time.Time, known map[st
 // schedule is whatever the runtime picks).
 func c10Body(env *l2Env, c c10Case) func(x *explore.Exec) {
 	return func(x *explore.Exec) {
+		// the registry entry must outlive thread 0: workers may still be running
+		// after doExecute returned an error; it is dropped once the execution ended
 		txs, st, id := c.build()
-		defer c10EndRun(id)
-		run := &c10Run{obs: &l2Obs{}, st: st}
+		run := &c10Run{obs: &l2Obs{}, st: st, id: id}
 		x.Data = run
 		env.execInto(run.obs, txs, c.Conc)
 	}
 }
 
 func c10Native(env *l2Env, c c10Case) (*c10Run, string) {
+	// the registry entry is kept: in the free-running concurrent mode worker
+	// goroutines may outlive doExecute
 	txs, st, id := c.build()
-	defer c10EndRun(id)
-	run := &c10Run{obs: &l2Obs{}, st: st}
+	run := &c10Run{obs: &l2Obs{}, st: st, id: id}
 	pt := ev.Catch(func() { env.execInto(run.obs, txs, c.Conc) })
 	if pt != "" {
 		pt += " (in doExecute)"
